@@ -202,6 +202,35 @@ func verifC11CheckSlice(v *vrt.T, fn int, pct float64, b *verifAggBatch, msg edg
 			}
 		}
 		v.Assert(vrt.Or(alts...), "mode is a most frequent value")
+		// InfluxQL: on a tie, the value with the earliest timestamp. Decidable when the point
+		// times are distinct: the tied value that occurs first in the batch.
+		strict := true
+		for i := 1; i < n; i++ {
+			strict = strict && b.ts[i-1] < b.ts[i]
+		}
+		// Known finding C11-mode-tie-not-earliest: the InfluxDB reducer decides ties its own
+		// way (for values that all occur once it returns the smallest value). Class: there
+		// is a tie, i.e. two different values reach the maximum count.
+		tie := false
+		for i := 0; i < n; i++ {
+			for k := 0; k < n; k++ {
+				var differ bool
+				if b.isInt {
+					differ = b.iv[i] != b.iv[k]
+				} else {
+					differ = b.fv[i] != b.fv[k]
+				}
+				if cnt[i] == best && cnt[k] == best && differ {
+					tie = true
+				}
+			}
+		}
+		for i := 0; i < n; i++ {
+			if cnt[i] == best {
+				v.AssertKnown(vrt.Or(!strict, is(i)), "mode: on a tie the value with the earliest timestamp", tie, "C11-mode-tie-not-earliest")
+				break
+			}
+		}
 		v.Assert(outT == b.tmax, "aggregate is stamped with the batch time")
 
 	case verifAgg2Percentile:
